@@ -8,10 +8,12 @@ package namedpipe
 // rdrec(r) the number of records ReadString has returned so far, rdlasterr(r) its last error.
 
 //@ functype Callback
+//@   blocks cancellable
 //@   modifies out, ctr, chans, heap
 //@   allocates
 
 //@ func (*NamedPipeIngester).Ingest
+//@   blocks cancellable external os.OpenFile: runs in its own goroutine, the caller selects on ctx.Done() and abandons it; ReadString: the goroutine waiting on ctx.Done() closes the file, which ends the blocked read
 //@   requires n != nil && n.Logger != nil && n.Health != nil && HealthOK(n.Health) && ctx != nil && callback != nil
 //@   ensures[nonnil] result != nil
 //@   ensures[once] rdcount == old(rdcount) || rdcount == old(rdcount) + 1
